@@ -433,7 +433,7 @@ impl<T: RealNumber, M: SVDDecomposableMatrix<T>> SVD<T, M> {
         let m = U.shape().0;
         let n = V.shape().0;
         let _full = s.len() == m.min(n);
-        let tol = T::half() * (T::from(m + n).unwrap() + T::one()).sqrt() * s[0] * T::epsilon();
+        let tol = T::from(m.max(n)).unwrap() * s[0] * T::epsilon();
         SVD {
             U,
             V,
